@@ -2,6 +2,7 @@
 import storecheck
 
 PLAN = {
+    "api": True,   # public-API programs incl. one write that displaces hundreds of entries, then Wait
     "mc": [("StoreMC_wait.cfg", False, True)],
     "sims": [("StoreSim_wait.cfg", 150, 1500, 61), ("StoreSim_wait2.cfg", 300, 2500, 61), ("StoreSim_acct.cfg", 60, 400, 61)],
     "drivers": [("TestVerif_StoreFree", 4, 30, "store_free.ndjson", None),
